@@ -519,6 +519,13 @@ where
                     Ok(CoroutineState::Complete(returns))
                 } else {
                     let message = result.unwrap_err();
+                    if let CoroutineState::Syscall(_, _, state) = self.state() {
+                        // the body ended by a panic or a memory fault inside a
+                        // hooked call, that call is over: leave it first
+                        if crate::common::constants::SyscallState::Executing == state {
+                            self.running()?;
+                        }
+                    }
                     self.error(message)?;
                     Ok(CoroutineState::Error(message))
                 }
